@@ -36,7 +36,7 @@ PID = "C25"
 LEVEL = "exploration"
 RULE = (
     "exhaustive histories ending in a fetch over {get(n), select([n, m]), put(n, v) (FileSystemLoader: with a later and with an earlier mtime), del(n), swap loader, toggle env.auto_reload, continue on env.overlay() (DictLoader / callback FunctionLoader sets)} for 2 names x 2 source versions (a non-empty one and the EMPTY source; two non-empty ones at shorter lengths; all three in thorough) "
-    "(length <= 4 quick / <= 5 thorough, plus length 6 on cache sizes 1 and 2: full alphabet on DictLoader, get/put/del only on the other loaders) and 3 names x 2 versions (length <= 3, plus length 4 on DictLoader with "
+    "(length <= 4 quick / <= 5 thorough, plus length 6 on cache sizes 1 and 2: full alphabet on DictLoader, get/put/del only on the other loaders) and 3 names x 2 versions (length <= 3, plus length 4 with get/put/del/toggle only on DictLoader with "
     "cache size 2, quick / <= 4, plus length 5 on DictLoader with cache size 2, thorough) "
     "x cache sizes {0, 1, 2, -1} x auto_reload {on, off} x {DictLoader over a dict, DictLoader over a UserDict / MappingProxyType, FunctionLoader returning str, FunctionLoader with an "
     "up-to-date callback, FileSystemLoader with mtimes forced from a counter, PackageLoader on a directory package (shorter histories)}; plus Hypothesis RuleBasedStateMachine histories of "
@@ -628,12 +628,13 @@ def all_enumerated(tier):
             histories(2, V0E, range(1, 5), kinds=MEM), histories(2, V0E, range(1, 5), kinds=["fs"], earlier=True),
             histories(2, V01, range(1, 4)),
             histories(3, V0E, range(1, 4), kinds=MEM), histories(3, V0E, range(1, 4), kinds=["fs"], earlier=True),
-            histories(3, V01, [4], kinds=["dict"], caches=[2]),
+            histories(3, V01, [4], kinds=["dict"], caches=[2], full=False),
             histories(2, V0E, range(1, 4), kinds=["pkg"], earlier=True), histories(3, V0E, range(1, 4), kinds=["pkg"]),
             histories(2, V0E, [4], kinds=["pkg"], full=False),
             histories(2, V0E, range(1, 4), kinds=["dict_map"]), histories(3, V0E, range(1, 4), kinds=["dict_map"]),
             histories(2, V0E, [4], kinds=["dict_map"], full=False),
-            histories(2, V0E, range(1, 5), kinds=["dict"], overlay=True), histories(3, V0E, range(1, 4), kinds=["func_utd"], overlay=True),
+            histories(2, V0E, range(1, 4), kinds=["dict"], overlay=True), histories(2, V0E, [4], kinds=["dict"], full=False, overlay=True),
+            histories(3, V0E, range(1, 4), kinds=["func_utd"], overlay=True),
         )
     return itertools.chain(
         histories(2, V01E, range(1, 5), kinds=MEM),
